@@ -1,5 +1,5 @@
 """e2.py - translation validation pipeline: module AST -> .wasm -> real w2c2 -> emitted C + harness -> Job."""
-import os, subprocess, shutil, json
+import os, re, subprocess, shutil, json
 from core import Job, REPO, H, BrokenMachinery, log
 import wasmenc
 from refgen import Harness
@@ -94,6 +94,20 @@ def e2_job(ctx, name, module, script, opts=(), harness_kw=None, backends=('z3',)
         # representable (it flags (I32)(-2147483648.0f), which is defined); out-of-range float->int casts are
         # excluded by C02's exact trap/clamp boundary equivalence instead.
         ign = []
+    # compile gate (concrete): every emitted file must be accepted by a C compiler on its own against the generated
+    # header; a valid module for which the translator emits C that does not compile is reported as a violation
+    # instead of an (inconclusive) CBMC front-end error
+    gate_incs = ['-I', os.path.join(REPO, 'w2c2'), '-I', d]
+    for fn in files:
+        if fn == 'dsblob.c' or not fn.endswith('.c'):
+            continue
+        r = subprocess.run(['gcc', '-fsyntax-only', '-w'] + gate_incs + defs + [os.path.join(d, fn)], capture_output=True, text=True,
+                           env=dict(os.environ, LC_ALL='C'))
+        if r.returncode != 0:
+            mm = re.search(r'error: ([^\n]*)', r.stderr)
+            return {'pre_violation': True, 'name': 'compile_' + name, 'dir': d, 'group': group or name,
+                    'desc': 'options %s: emitted file %s does not compile on its own against the generated header: %s'
+                            % (' '.join(opts), fn, mm.group(1) if mm else r.stderr[-200:])}
     smp = dict(sample or {})
     smp.setdefault('program', name)
     smp.setdefault('w2c2_options', list(opts))
